@@ -9,14 +9,22 @@ import (
 	"fmt"
 	"math/big"
 	"os"
+	"runtime"
 	"strconv"
 	"strings"
+	"sync"
 
 	"github.com/db47h/decimal"
 	"github.com/db47h/decimal/context"
 )
 
+type parSpec struct {
+	nrecv, k, procs, rounds int
+	gc                      bool
+}
+
 type prog struct {
+	par   *parSpec
 	ctx   *context.Context
 	pid   string
 	vars  []*decimal.Decimal
@@ -324,8 +332,16 @@ func processLine(line string, w *bufio.Writer) {
 		case "C":
 			c := context.New(uint(atou(t[1])), decimal.RoundingMode(atoi(t[2])))
 			p.ctx = &c
+		case "P":
+			p.par = &parSpec{nrecv: atoi(t[1]), k: atoi(t[2]), procs: atoi(t[3]), rounds: atoi(t[4]), gc: t[5] == "1"}
 		default:
 			panic("bad item " + it)
+		}
+	}
+	var snap []decimal.VerifRaw
+	if p.par != nil {
+		for _, d := range p.vars {
+			snap = append(snap, decimal.VerifGet(d))
 		}
 	}
 	var b strings.Builder
@@ -346,6 +362,99 @@ func processLine(line string, w *bufio.Writer) {
 			break
 		}
 	}
+	if p.par != nil {
+		mism, opchg := runParallel(p, snap)
+		fmt.Fprintf(w, "%s %d Par ok %d %d\n", p.pid, len(p.ops), mism, opchg)
+	}
+}
+
+func sameRaw(a, b decimal.VerifRaw) bool {
+	if a.Form != b.Form || a.Neg != b.Neg || a.Prec != b.Prec || a.Mode != b.Mode || a.Acc != b.Acc {
+		return false
+	}
+	if a.Form != 1 {
+		return true
+	}
+	if a.Exp != b.Exp || len(a.Mant) != len(b.Mant) {
+		return false
+	}
+	for i := range a.Mant {
+		if a.Mant[i] != b.Mant[i] {
+			return false
+		}
+	}
+	return true
+}
+
+// runParallel runs the program's operations in k goroutines that share the
+// operand variables (indices >= nrecv) and own private copies of the receiver
+// variables (indices < nrecv), and compares every goroutine's receivers with the
+// sequential result (p.vars after the sequential run) and the shared operands
+// with their initial state.
+func runParallel(p *prog, snap []decimal.VerifRaw) (mism, opchg int) {
+	ps := p.par
+	old := runtime.GOMAXPROCS(ps.procs)
+	defer runtime.GOMAXPROCS(old)
+	want := make([]decimal.VerifRaw, ps.nrecv)
+	for i := 0; i < ps.nrecv; i++ {
+		want[i] = decimal.VerifGet(p.vars[i])
+	}
+	shared := p.vars[ps.nrecv:]
+	var wg sync.WaitGroup
+	var mu sync.Mutex
+	done := make(chan struct{})
+	if ps.gc {
+		go func() {
+			for {
+				select {
+				case <-done:
+					return
+				default:
+					runtime.GC()
+				}
+			}
+		}()
+	}
+	for g := 0; g < ps.k; g++ {
+		wg.Add(1)
+		go func(g int) {
+			defer wg.Done()
+			for r := 0; r < ps.rounds; r++ {
+				q := &prog{pid: p.pid}
+				for i := 0; i < ps.nrecv; i++ {
+					d := new(decimal.Decimal)
+					decimal.VerifSet(d, snap[i], (g+r)%3, decimal.Word(g))
+					q.vars = append(q.vars, d)
+				}
+				q.vars = append(q.vars, shared...)
+				bad := 0
+				for _, o := range p.ops {
+					if out, _ := execOp(q, o); out == "crash" {
+						bad++
+						break
+					}
+				}
+				for i := 0; i < ps.nrecv; i++ {
+					if !sameRaw(decimal.VerifGet(q.vars[i]), want[i]) {
+						bad++
+					}
+				}
+				if bad > 0 {
+					mu.Lock()
+					mism += bad
+					mu.Unlock()
+				}
+			}
+		}(g)
+	}
+	wg.Wait()
+	close(done)
+	for i, d := range shared {
+		if !sameRaw(decimal.VerifGet(d), snap[ps.nrecv+i]) {
+			opchg++
+		}
+	}
+	return
 }
 
 func main() {
